@@ -38,6 +38,7 @@ def plan(tier, seed):
     for n in range(1, nmax + 1):
         items.append(dict(layer="space", n=n))
     items.append(dict(layer="structured", lo=11 if tier == "quick" else 14, hi=20))
+    items.append(dict(layer="sequence"))
     items.append(dict(layer="limit", accept=True))
     for n in (1, 2, 3, 4) + (() if tier == "quick" else (5,)):
         items.append(dict(layer="binding", n=n))
@@ -276,11 +277,30 @@ def run_refbasis(acc, N, n):
         acc.outcome(sha([N, n, len(want)]))
 
 
+def run_sequence(acc):
+    """non-initial states: one state object asked for spaces / vectors of different sizes in every order"""
+    import itertools as it
+    for kind, arch in (("positive", [3, 2]), ("complex", [2, 2]), ("mixed", [2, 1, 1])):
+        for order in it.permutations([1, 2, 3, 4]):
+            st = build_state(kind, arch)
+            for n in order:
+                acc.ev(1)
+                sp = call(st.generate_hilbert_space, n)
+                v = call(st.subspace_vector, 2 ** n - 2, size=n)
+                d = call(st.generate_hilbert_space)
+                if not (np.array_equal(sp.numpy(), R.bits(n)) and np.array_equal(v.numpy(), R.bits(n)[2 ** n - 2]) and np.array_equal(d.numpy(), R.bits(arch[0]))):
+                    acc.viol("indexing:result-depends-on-earlier-calls", dict(layer="sequence", kind=kind, order=list(order), n=n), observed=sp[:4], expected=R.bits(n)[:4])
+                    return
+    acc.outcome("sequence")
+
+
 def run_item(item):
     acc = Acc()
     layer = item["layer"]
     try:
-        if layer == "space":
+        if layer == "sequence":
+            run_sequence(acc)
+        elif layer == "space":
             run_space(acc, item["n"])
         elif layer == "structured":
             run_structured(acc, item["lo"], item["hi"])
